@@ -482,6 +482,12 @@ def oracle(ctx, hints, effort):
                       corr_length=[0.0001585, 0.0005188, 0.0004931], temperature=244.87, emmodel="iba",
                       interfaces=["go:0.044", "go:0.007", "go:0.073"], substrate=None, sub_eps=[9.04, 0.723], sigma_surface=None),
                  dict(oversampling=2, theta_inc_sampling=1)))
+    # the airborne altimeter over a nearly smooth geometrical-optics surface: the backscatter lobe falls off inside the range window, so the
+    # dependence on the incidence angle is steep between the incidence samples
+    for mss_ in (1e-3, 1e-4):
+        c_ = rand_case(rng, alt="asiras_lam", nl=1)
+        c_.update(emmodel="iba", interfaces=["go:%g" % mss_], substrate=None, sigma_surface=None, thickness=[2.0])
+        todo.append((c_, dict(oversampling=4, theta_inc_sampling=8)))
     for case, o in todo:
         evals += 16
         for b in check_case(case, o):
